@@ -39,7 +39,7 @@ RULE = ('Hypothesis: CamxSpec (uamiv[AVERAGE EMISSIONS AIRQUALITY INSTANT] '
         'derived IOAPI attributes (TSTEP, SDATE...) are not compared.  '
         'Non-trivial: (>1 variable and nz>1 and steps>1) or a '
         'day/year/century/leap roll-over inside the file or a denormal / '
-        '-0.0 payload.  Distinct by sha1 of the case spec.')
+        '-0.0 payload.  Distinct by sha1 of the case spec.' + '  Domain by construction: lateral_boundary nx, ny >= 2 (an edge needs its two corner cells), EMISSIONS nz = 1, AIRQUALITY one step, steps of whole hours (lateral_boundary 1 h), every instant incl. the last end time inside 1970-2069, species names not DATE/TFLAG/ETFLAG, a 3-variable cloud_rain file whose size is also a whole number of 5-variable steps is not generated (the format stores no variable count), old-style landuse with at most one optional field.  The reader route is not used for input classes in which the reader is known (C09 findings) not to present the reference file: single-step met files, old-style landuse, 1x1 wind, files straddling 1999/2000; these use the array route.')
 ASSUMPTIONS = ['the in-memory files carry the metadata the writers read '
                '(TFLAG, VAR-LIST, TSTEP, CAMx header attributes, LSTAGGER, '
                'FILEDESC, _newstyle) as the library readers present them',
@@ -317,6 +317,8 @@ known.register('C08-wind-memmap-1cell', lambda spec, f: (
     (f.clause == 'rt-dim' or
      (f.clause == 'read-raises' and f.where in (
          'NonTermination@camxfiles/wind/Memmap.py:__init__',
+         # form the endless scan takes once it is repaired
+         'OSError@camxfiles/wind/Memmap.py:__init__',
          'ValueError@camxfiles/wind/Memmap.py:__add_variables')))))
 known.register('C08-landuse-oldstyle-decode', lambda spec, f: (
     spec['fmt'] == 'landuse' and not spec['newstyle'] and
